@@ -175,4 +175,17 @@ cJSON_bool cJSON_InsertItemInArray(cJSON *array, int which, cJSON *newitem)
     else { newitem->prev->next = newitem; }
     return 1;
 }
+/* SHP1: tail link not restored when the last of exactly two elements is removed */
+cJSON *bad_SHP1_detach(cJSON *parent, cJSON * const item)
+{
+    cJSON *head = parent->child;
+    cJSON *before = item->prev;
+    cJSON *after = item->next;
+    if (item == head) { parent->child = after; } else { before->next = after; }
+    if (after != NULL) { after->prev = before; }
+    else if ((item != head) && (before != head)) { head->prev = before; }
+    item->prev = NULL;
+    item->next = NULL;
+    return item;
+}
 int tree_bad_use(const cJSON *a) { return print_value(a); }
